@@ -1,0 +1,16 @@
+//go:build !verif
+
+package kv
+
+import (
+	"context"
+	"time"
+)
+
+func verifS3(S3 S3Interface, _ *S3BucketInfo) S3Interface { return S3 }
+
+func verifWhen(when time.Time) time.Time { return when }
+
+func verifRootOrder(roots []string) []string { return roots }
+
+func verifRetire(context.Context, *DB, string, map[string][]byte) bool { return false }
